@@ -1441,6 +1441,10 @@ add_seen(ndtr_t *tr, ndnd_t *nd)
 static inline bool
 chkpntedp(uid_t u)
 {
+	if (UNLIKELY(ichkpnts >= countof(chkpnts))) {
+		/* marks have been dropped since, could be anyone */
+		return true;
+	}
 	if (NEDTRIE_FIND(ndtr_t, &chkpntr, &(ndnd_t){.key = u}) != NULL) {
 		return true;
 	}
